@@ -168,7 +168,7 @@ TIE = {
  "C09": "SMCSamples.log_weights, the statements of SMCSamples.resample that compute the probability vector handed to rng.choice, and (seventh vocabulary, rows2lean.py) the `return self.__class__(x=self.x[idx], ...)` of resample (Props/C09RowsTie: the translated population = C09.resampleRows up to an evidence attached to the old object; src_rows_copied_intact - all four columns are gathered with the SAME index list; src_resampled_beta; src_resampled_size)",
  "C11": "the statements of SMCSampler.sample that decide whether a resumed call re-enters the loop, and the LOOP of SMCSampler.sample statement by statement (the body of `while True:`, the nested maybe_checkpoint, the `if run_smc_loop:` / break skeleton and the statements after the loop up to the forced checkpoint) over the callee interface Gen.LoopOps (Props/C11LoopTie: the loop and the statements after it read nothing but the five values a checkpoint payload is built from, so a call restarted from them records the same history, evidence and new payloads, for every callee); and the checkpoint STATE DICTIONARY: Sampler.build_checkpoint_state, SMCSampler.build_checkpoint_state, _checkpoint_extra_state and both restore_from_checkpoint, key by key, over a heap of history objects in which copy.deepcopy allocates (Props/C11StateTie: the history a checkpoint holds is frozen whatever the run appends later, restore . build is the identity on what the loop reads, a live dictionary is untouched by the resumed run and restores the same a second time, bytes / path / dictionary are interchangeable, build = Model.snapshot and restore = Model.restore)",
  "C12": "the cadence rule inside maybe_checkpoint of SMCSampler.sample and utils.dump_pickle_to_hdf (create / resize / overwrite of the checkpoint dataset, in a dataset vocabulary), and the LOOP of SMCSampler.sample statement by statement (the body of `while True:`, the nested maybe_checkpoint, the `if run_smc_loop:` / break skeleton and the statements after the loop up to the forced checkpoint) over the callee interface Gen.LoopOps (Props/C12LoopTie: src_cadence - the payloads handed to the callback are built at iterations e, 2e, ... and once at the end, the last one from the returned population, evidence, counter, temperature, minimum step and history); and the checkpoint state dictionary (Props/C12StateTie: the payload holds the arguments it was built from and the history of that moment, and a file holding its pickled bytes restores to that moment on a new sampler object whatever the run did afterwards)",
- "C13": "the nested _save_flattened of utils.recursively_save_to_h5_file (the items loop, the dotted key, the `isinstance(value, dict) and value` test, the dataset creation with encode_for_hdf5) and the loop of utils.load_from_h5_file (split at the dots, the setdefault walk, the decoded assignment) (eighth vocabulary, harness/translate/codec2lean.py over Model/Codec) (Props/C13Tie: tie_save_flattened / tie_load_flattened by mutual structural recursion; src_codec_roundtrip_any_order and src_codec_roundtrip_same_order restate the round-trip theorems for the translated functions)",
+ "C13": "the nested _save_flattened of utils.recursively_save_to_h5_file (the items loop, the dotted key, the `isinstance(value, dict) and value` test, the dataset creation with encode_for_hdf5) and the loop of utils.load_from_h5_file (split at the dots, the setdefault walk, the decoded assignment) (eighth vocabulary, harness/translate/codec2lean.py over Model/Codec) (Props/C13Tie: tie_save_flattened / tie_load_flattened by mutual structural recursion; src_codec_roundtrip_any_order and src_codec_roundtrip_same_order restate the round-trip theorems for the translated functions); and the file layout of the diagnostic history, SMCHistory.save / load (eleventh vocabulary, harness/translate/hist2lean.py: the counter key, the group path of every population, the codec call; Props/C13HistTie: src_history_roundtrip - for any number of stored populations, any well-formed attributes, any file and path, load . save gives back the same populations in order and the same attributes, through exactly the facts a layout change breaks)",
  "C15": "the seven conversion methods of the sample containers (to_numpy / to_namespace of BaseSamples, Samples, SMCSamples; the classmethod from_samples), the constructor's __post_init__ and the method resolution of the three classes, as constructor plans over the finite dtype model (Props/C15Tie: running the translated plan of the method a class resolves to gives the namespace and width of Model.convert or the same error on the WHOLE table of 1458 requests - decide +kernel, lifted by membership -, and whenever it succeeds every per-row field is built from its own field and ends in the namespace and at the width of the coordinates, with the set-level values of the class carried)",
  "C16": "which field of a NEW sample set is built from which field of the old one, indexed how (seventh vocabulary, harness/translate/rows2lean.py over Model/Rows + Gen/RowOps): BaseSamples / Samples / SMCSamples.__getitem__ and SMCSamples.to_standard_samples (Props/C16Tie: each translated __getitem__ = Model.select for its class; src_selection_aligned, src_evidence_carried, src_weights_selected (ESS recomputed from the SELECTED log-weights), src_to_standard)",
  "C17": "the statements by which the samplers EVALUATE the user's functions (sixth vocabulary, harness/translate/eval2lean.py over Gen/EvalOps): the counting wrapper Sampler.log_likelihood, the construct-attach-prior-then-likelihood statements of five call sites (importance sampler, MCMC and SMC kernel targets, MiniPCNSMC.mutate, EmceeSMC.mutate) and the whole rejection loop of MCMCSampler.draw_initial_samples (Props/C17Tie: every site = Model.evalLP / reevaluate / targetEval; src_prior_before_likelihood_same_points; tie_draw_initial_samples: for n >= 1 the translated initial draw consumes the same batches, makes the same calls in the same order, counts the same evaluations and returns the same population as Model.drawInitial, by induction over the batches)",
